@@ -390,8 +390,12 @@ def run(ctx) -> dict:
     from .c05_purity import r05_3
     r6 = r05_3(ctx, counts)
     r6.title = 'OPERAND-IMMUTABLE (R08.6 = R05.3: sequence functions build new sequences)'
+    from .c01_paths import r01_5
+    r7 = r01_5(ctx, counts)
+    r7.title = ('PREDICATE-AXIS-DIRECTION (R08.7 = R01.5: a filter takes its results from the '
+                'focus iteration and examines every item)')
     return {
-        'results': [r1, r2, r08_3(ctx, counts), r08_4(ctx, counts), r08_5(ctx, counts), r6],
+        'results': [r1, r2, r08_3(ctx, counts), r08_4(ctx, counts), r08_5(ctx, counts), r6, r7],
         'counts': counts,
         'explanation':
             'Two thin structural clauses of C08 are decided: the focus numbering that '
